@@ -116,9 +116,15 @@ class DataSet:
         count = data.shape
         enlarge = tuple(self.shape[i] + (0 if i != axis else x)
                         for i, x in enumerate(data.shape))
+        oldextent = tuple(self.shape)
         self.data_extent = enlarge
         slc = tuple(slice(o, c+o) for o, c in zip(offset, count))
-        self._write_data(data, slc)
+        try:
+            self._write_data(data, slc)
+        except Exception:
+            # the data cannot be stored: do not leave the array enlarged
+            self.data_extent = oldextent
+            raise
 
     def _write_data(self, data, slc=None):
         dataset = self._h5group.get_dataset("data")
